@@ -28,7 +28,10 @@ def rbits(rng, n):
 
 def t_uint(n, bo=MSB, enc="unsigned", cals=NOCAL, tname=None):
     def g(rng, ctrl_val=None):
-        v = rng.getrandbits(n) if ctrl_val is None else ctrl_val % (1 << n)
+        if ctrl_val is None:
+            v = rng.choice([0, (1 << n) - 1, 1 << (n - 1)]) if (n and rng.random() < 0.25) else rng.getrandbits(n)
+        else:
+            v = ctrl_val % (1 << n)
         return f"{v:0{n}b}" if n else ""
     return PT(tname or f"U{n}{'L' if bo == LSB else ''}{'S' if enc != 'unsigned' else ''}",
               ["pt", S(tname or f"U{n}_T"), "plain", ["int", str(n), S(enc), S(bo), cals]], n, g, control=True)
